@@ -173,6 +173,46 @@ func genEdgesNum(r *rng, p gp, kind int) (n int, es [][2]int) {
 				}
 			}
 		}
+	case 6: // parallel chains of different lengths between a common source and common sinks, with pendant nodes:
+		// the short chains have slack, their inner nodes (in-degree = out-degree) are what the balancing steps move
+		k := r.rangeIn(2, 4)
+		n = 1 // node 0 = source
+		var ends []int
+		for c := 0; c < k; c++ {
+			L := r.rangeIn(1, max(2, min(6, p.maxN/2)))
+			prev := 0
+			for i := 0; i < L; i++ {
+				es = append(es, [2]int{prev, n})
+				prev = n
+				n++
+			}
+			ends = append(ends, prev)
+		}
+		sinks := r.rangeIn(1, 3)
+		for sIdx := 0; sIdx < sinks; sIdx++ {
+			for _, e := range ends {
+				if sIdx == 0 || r.chance(2, 3) {
+					es = append(es, [2]int{e, n})
+				}
+			}
+			n++
+		}
+		inner := n
+		for x := r.intn(5); x > 0; x-- { // pendants change how crowded the layers are
+			a := r.intn(inner)
+			if r.chance(1, 2) {
+				es = append(es, [2]int{a, n})
+			} else {
+				es = append(es, [2]int{n, a})
+			}
+			n++
+		}
+		pm := r.perm(len(es))
+		es2 := make([][2]int, len(es))
+		for i, j := range pm {
+			es2[i] = es[j]
+		}
+		es = es2
 	case 4: // dense small cyclic: many antiparallel pairs on one node (reversal order)
 		n = r.rangeIn(2, min(5, p.maxN))
 		m := r.rangeIn(2, p.maxM)
@@ -211,7 +251,7 @@ func adversarialNames(r *rng, n int) []string {
 func genGraph(r *rng, p gp) (edges [][]string, names []string) {
 	kind := p.kind
 	if kind < 0 {
-		kind = []int{0, 0, 0, 1, 1, 2, 3, 3, 4, 5}[r.intn(10)]
+		kind = []int{0, 0, 0, 1, 1, 2, 3, 3, 4, 5, 6, 6}[r.intn(12)]
 	}
 	n, es := genEdgesNum(r, p, kind)
 	if p.comps && r.chance(1, 4) {
